@@ -254,6 +254,7 @@ def run_property(mod, tier, seed):
                 if nf == 3:
                     violations.append(p)
 
+    t_rep = time.time() - t0
     # 2. enumerated sub-checks
     extras = []
     if hasattr(mod, "extra"):
@@ -265,6 +266,7 @@ def run_property(mod, tier, seed):
                 if nf == 3 and not (out.known and out.known in known_ids):
                     violations.append(write_replay(mod, case_enc, out.detail))
 
+    t_ext = time.time() - t0 - t_rep
     # 3. sharded random search
     nex, nshards = mod.budget(tier)
     stats = []
@@ -324,6 +326,8 @@ def run_property(mod, tier, seed):
         "known_finding_hits": known_hits, "inconclusive": inconc,
         "regression_replays_run": fixed_run + regress,
         "shards": len(stats), "examples_per_shard": nex,
+        "phase_seconds": {"build_and_replays": round(t_rep, 1), "enumerated": round(t_ext, 1),
+                          "random_and_confirmation": round(time.time() - t0 - t_rep - t_ext, 1)},
     }
     if errors:
         coverage["harness_errors"] = errors[:3]
